@@ -43,6 +43,8 @@ type dialRec struct {
 type dialLog struct {
 	mu   sync.Mutex
 	recs []*dialRec
+	// stillborn counts dial attempts whose context was already done when the dialer was called
+	stillborn int
 	// client, once set, lets the dialer look at the connection cache
 	client atomic.Value // gohbase.Client
 	// declaredDead[addr] = times at which the client removed the connection
@@ -85,6 +87,15 @@ func trackingDialer(cl *sim.Cluster, dl *dialLog, fault func(addr string, n int)
 	dial := cl.Dialer()
 	counts := map[string]int{}
 	return func(ctx context.Context, network, addr string) (net.Conn, error) {
+		if ctx.Err() != nil {
+			// the client cancelled this attempt before it began (an establisher
+			// working with the context of a region that has just been replaced):
+			// nothing is sent to the server, so this is not a dial of that server
+			dl.mu.Lock()
+			dl.stillborn++
+			dl.mu.Unlock()
+			return nil, ctx.Err()
+		}
 		rec := &dialRec{addr: addr, t: time.Now(), cachedSameAddr: -1}
 		if cl, _ := dl.client.Load().(gohbase.Client); cl != nil {
 			rec.cachedSameAddr = 0
@@ -121,6 +132,7 @@ func (dl *dialLog) judge(c *fw.Ctx, id, descr string, faultFree, quiescent bool,
 		dl.judgeDropped(c, id, descr, cls[0])
 	}
 	dl.mu.Lock()
+	c.Count("dial_attempts_cancelled_before_they_began", int64(dl.stillborn))
 	recs := append([]*dialRec{}, dl.recs...)
 	dead := map[string][]time.Time{}
 	for a, l := range dl.declaredDead {
@@ -135,7 +147,16 @@ func (dl *dialLog) judge(c *fw.Ctx, id, descr string, faultFree, quiescent bool,
 		c.Count("addresses_checked", 1)
 		c.Count(fmt.Sprintf("dials_per_address_%d", min(len(l), 5)), 1)
 		if faultFree && len(l) != 1 {
-			c.Violate(id, "conn:dialled-more-than-once", fmt.Sprintf("%s was dialled %d times in a fault-free run: %s", addr, len(l), descr), descr)
+			how := ""
+			for i, r := range l {
+				ct, _ := r.closedT.Load().(time.Time)
+				cl := "open"
+				if !ct.IsZero() {
+					cl = fmt.Sprintf("closed after %v", ct.Sub(r.t).Round(10*time.Microsecond))
+				}
+				how += fmt.Sprintf(" [dial %d: +%v ok=%v cached-for-address=%d %s]", i+1, r.t.Sub(l[0].t).Round(10*time.Microsecond), r.ok, r.cachedSameAddr, cl)
+			}
+			c.Violate(id, "conn:dialled-more-than-once", fmt.Sprintf("%s was dialled %d times in a fault-free run:%s: %s", addr, len(l), how, descr), descr)
 		}
 		for i := 1; i < len(l); i++ {
 			// connections to addr that succeeded before this dial, and how many
@@ -230,6 +251,10 @@ func (dl *dialLog) judgeDropped(c *fw.Ctx, id, descr string, cl *sim.Cluster) {
 				if e.Conn == sid && (e.Kind == "conn-kill" || e.Kind == "fault") {
 					faulty = true
 				}
+				// an answer that says the server itself is going away
+				if e.Conn == sid && e.Kind == "exec-fault" && (strings.Contains(e.Info, sim.ExcStopped) || strings.Contains(e.Info, sim.ExcAborted)) {
+					faulty = true
+				}
 			}
 		} else {
 			faulty = true // cannot be attributed: not judged
@@ -247,17 +272,23 @@ type c20Case struct {
 	Regions int
 	Users   int
 	Later   int
-	Fault   string // "" | reset | abort-exc | dial-fail-once | read-error
+	Fault   string // "" | reset | abort-exc | dial-fail-once | read-error | split-lonely | probe-opening | action-stopped
 	Queue   int
 	// Precache: "" | before | during - CacheRegions (every region of the table
 	// discovered and connected at once by the client itself) before or during the burst
 	Precache string
+	// Dotted: one more server, registered in hbase:meta under the absolute form
+	// of its name ("rs9.example.com.:16020"), hosts every third region
+	Dotted bool
 }
 
 func (c c20Case) String() string {
 	s := fmt.Sprintf("servers=%d regions=%d first-users=%d later=%d fault=%s queue=%d", c.Servers, c.Regions, c.Users, c.Later, c.Fault, c.Queue)
 	if c.Precache != "" {
 		s += " cache-regions=" + c.Precache
+	}
+	if c.Dotted {
+		s += " dotted-server"
 	}
 	return s
 }
@@ -281,6 +312,14 @@ func runC20Case(c *fw.Ctx, id string, cs c20Case) {
 		}
 	}
 	regs := cl.CreateTable("t", bounds, assign)
+	if cs.Dotted {
+		cl.AddServer("rs9.example.com.:16020")
+		for i, rg := range regs {
+			if i%3 == 1 {
+				cl.MoveRegion(rg.Name, "rs9.example.com.:16020")
+			}
+		}
+	}
 	cl.EchoResults = true
 	dl := &dialLog{}
 	var faultOnce int32
@@ -309,6 +348,15 @@ func runC20Case(c *fw.Ctx, id string, cs c20Case) {
 				if _, seen := probes.LoadOrStore(string(req.Single.Region), true); !seen && sim.Hash32(string(req.Single.Region))%2 == 0 {
 					return &sim.Reply{Exc: &sim.Exc{Class: sim.ExcRegionOpening}}
 				}
+			}
+			return nil
+		}
+	case "action-stopped":
+		// one action of a multi-request is answered with a server-fatal class
+		// ("regionserver stopped") while the server keeps the connection open
+		cl.OnAction = func(req *sim.Request, a *sim.Action) *sim.Exc {
+			if req.Multi != nil && a.OpID != "" && atomic.CompareAndSwapInt32(&faultOnce, 0, 1) {
+				return &sim.Exc{Class: sim.ExcStopped}
 			}
 			return nil
 		}
@@ -451,8 +499,8 @@ func init() {
 			for i := 0; i < n; i++ {
 				cs := c20Case{Seed: r.Int63(), Servers: 1 + r.Intn(3), Regions: []int{1, 2, 4, 8, 16, 32}[r.Intn(6)],
 					Users: []int{1, 2, 8, 32, 128}[r.Intn(5)], Later: r.Intn(21), Queue: []int{1, 5, 100}[r.Intn(3)],
-					Fault:    []string{"", "", "reset", "abort-exc", "dial-fail-once", "read-error", "split-lonely", "probe-opening"}[r.Intn(8)],
-					Precache: []string{"", "", "before", "during"}[r.Intn(4)]}
+					Fault:    []string{"", "", "reset", "abort-exc", "dial-fail-once", "read-error", "split-lonely", "probe-opening", "action-stopped"}[r.Intn(9)],
+					Precache: []string{"", "", "before", "during"}[r.Intn(4)], Dotted: r.Intn(5) == 0}
 				if cs.Fault == "split-lonely" {
 					cs.Servers = 2 + r.Intn(2)
 					if cs.Regions < 2 {
